@@ -37,8 +37,16 @@ fn run_subquery_blocking(
 ) -> Result<Vec<RecordBatch>> {
     let rt = subquery_runtime();
     std::thread::spawn(move || {
-        let stream = rt.block_on(physical.execute(0))?;
-        rt.block_on(async { stream.try_collect().await })
+        // Every declared partition, not just the first: a multi-row-group
+        // Parquet scan under an EXISTS / IN / scalar subquery or a CTE body
+        // declares several and each holds part of the rows.
+        let mut batches = Vec::new();
+        for partition in 0..physical.output_partitions().max(1) {
+            let stream = rt.block_on(physical.execute(partition))?;
+            let part: Vec<RecordBatch> = rt.block_on(async { stream.try_collect().await })?;
+            batches.extend(part);
+        }
+        Ok(batches)
     })
     .join()
     .unwrap_or_else(|_| {
@@ -274,7 +282,9 @@ impl SubqueryExecutor {
         // Run the async code reusing the existing runtime when possible
         let batches = run_subquery_blocking(physical)?;
 
-        if batches.is_empty() || batches[0].num_rows() == 0 {
+        // The one row may sit in any batch of any partition.
+        let total_rows: usize = batches.iter().map(|b| b.num_rows()).sum();
+        if total_rows == 0 {
             let result = ScalarValue::Null;
             self.inner
                 .cache
@@ -283,13 +293,16 @@ impl SubqueryExecutor {
             return Ok(result);
         }
 
-        let batch = &batches[0];
-        if batch.num_rows() != 1 {
+        if total_rows != 1 {
             return Err(QueryError::Execution(format!(
                 "Scalar subquery returned {} rows, expected 1",
-                batch.num_rows()
+                total_rows
             )));
         }
+        let batch = batches
+            .iter()
+            .find(|b| b.num_rows() == 1)
+            .expect("one row in total");
 
         // `SELECT (SELECT *)`: a subquery with no FROM expands `*` to nothing
         if batch.num_columns() == 0 {
@@ -467,6 +480,11 @@ fn array_ref_to_scalar(array: &ArrayRef, index: usize) -> Result<ScalarValue> {
                 .downcast_ref::<Date32Array>()
                 .ok_or_else(|| QueryError::Type("Expected Date32Array".into()))?;
             ScalarValue::Date32(arr.value(index))
+        }
+        arrow::datatypes::DataType::Dictionary(_, value_type) => {
+            // Joins hand dictionary-encoded strings to the filter above them.
+            let plain = arrow::compute::cast(&array.slice(index, 1), value_type)?;
+            return array_ref_to_scalar(&plain, 0);
         }
         dt => {
             return Err(QueryError::NotImplemented(format!(
